@@ -37,15 +37,15 @@ func (p *c12) Directed() []string {
 }
 func (p *c12) NumGenerated(tier string) int {
 	if tier == "thorough" {
-		return 30000
+		return 50000
 	}
-	return 500
+	return 1000
 }
 func (p *c12) BatchSize(tier string) int {
 	if tier == "thorough" {
 		return 200
 	}
-	return 16
+	return 25
 }
 func (p *c12) CaseTimeoutS() int { return 30 }
 func (p *c12) Floors(tier string) []string {
@@ -53,6 +53,15 @@ func (p *c12) Floors(tier string) []string {
 		"clause.a.body_passthrough", "a.texts_with_double_at", "a.texts_with_lone_at",
 		"clause.b.template_alone", "clause.b.expression_alone", "clause.c.template_concat", "clause.c.expression_concat",
 		"clause.c.template_funcarg", "clause.c.template_indexkey", "clause.d.scanner_tokens"}
+}
+
+func (p *c12) ExtraEvidence(tier string, counters map[string]int64) map[string]any {
+	return map[string]any{
+		"strings":                 counters["strings.total"],
+		"literal_evaluations":     counters["clause.b.template_alone"] + counters["clause.b.expression_alone"] + counters["clause.c.template_concat"] + counters["clause.c.expression_concat"] + counters["clause.c.template_funcarg"] + counters["clause.c.expression_funcarg"] + counters["clause.c.template_indexkey"] + counters["clause.c.expression_indexkey"],
+		"quote":                   "types.NewXText(s).Describe() — goflow's own printer of a text literal",
+		"allowed_top_levels_in_a": c12Tops,
+	}
 }
 
 func quote(s string) string { return types.NewXText(s).Describe() }
@@ -90,7 +99,7 @@ func litString(r *fw.Rand) string {
 		s = gen.LiteralString(r)
 	case 6, 7:
 		s = gen.AnyString(r)
-	case 8, 9:
+	case 8:
 		// trailing backslash runs after anything
 		s = litTokens(r, r.Range(0, 6)) + strings.Repeat(`\`, r.Range(1, 5))
 	case 10:
